@@ -127,7 +127,7 @@ def eval_case(case):
                 net.add('h', 22, fakenet.Ssh1Server(spec))
             else:
                 net.add('h', 22, fakenet.Server(spec))
-        r = drive.run_cli(opts + ['--skip-rate-test'] + (['-1'] if case.get('proto') == 1 else []) + ['h'], net)
+        r = drive.run_cli(opts + ['--skip-rate-test'] + (['-1'] if case.get('proto') == 1 and not case.get('fallback') else []) + ['h'], net)
         cl = ['broken', 'stage:' + stage, 'json' if js else 'text']
         if r.hang:
             fails.append(['hang', r.brief()])
@@ -152,6 +152,35 @@ def eval_case(case):
         if has_report(r.out, js):
             fails.append(['incomplete-audit-prints-algorithm-report', 'stage %s fault %r opts %r: %r' % (stage, case.get('fault'), opts, r.out[-300:])])
         return mkres(case, nt=True, classes=cl, fails=fails)
+    if k == 'multi':
+        # several rated peers in one invocation with -j: the run's status is the worst finding of any of the documents printed
+        net = fakenet.FakeNet()
+        for i, lists in enumerate(case['peers']):
+            net.add('s%d' % i, 22, fakenet.Server({'banner': 'SSH-2.0-OpenSSH_9.0', 'kex': lists['kex'], 'key': lists['key'], 'enc': lists['enc'], 'mac': lists['mac']}))
+        tf = drive.tmpfile(''.join('s%d\n' % i for i in range(len(case['peers']))))
+        try:
+            r = drive.run_cli(['-n', '-j', '--skip-rate-test', '--threads', str(case['threads']), '-T', tf], net)
+        finally:
+            os.unlink(tf)
+        cl = ['multi-target', 'n:%d' % len(case['peers']), 'threads:%d' % case['threads']]
+        if r.exc or r.hang:
+            fails.append([drive.crash_sig(r) if r.exc else 'hang', r.brief()])
+            return mkres(case, nt=True, classes=cl, fails=fails)
+        try:
+            docs = json.loads(r.out)
+        except ValueError:
+            fails.append(['json-unparseable', r.out[-200:]])
+            return mkres(case, nt=True, classes=cl, fails=fails)
+        worst = 0
+        for d in docs:
+            sevs = {sev for _, n, sev, _ in report.JsonReport(d).findings() if n != ''}
+            worst = max(worst, 3 if 'fail' in sevs else (2 if 'warn' in sevs else 0))
+        want = max(expected_status(l, 'server')[0] for l in case['peers'])
+        if r.code != worst:
+            fails.append(['multi-target-exit-status-%d-but-worst-finding-in-the-documents-is-%d' % (r.code, worst), 'peers %r' % (case['peers'],)])
+        elif r.code != want:
+            fails.append(['exit-status-%d-instead-of-%d' % (r.code, want), 'multi-target run, peers %r' % (case['peers'],)])
+        return mkres(case, nt=True, classes=cl + ['want:%d' % want], fails=fails)
     if k == 'ssh1rated':
         # protocol-1 peers: the status follows from the worst rating among the key, the ciphers and the authentication types shown
         from ssh_audit.ssh1_kexdb import SSH1_KexDB
@@ -177,7 +206,6 @@ def eval_case(case):
     if k == 'noverdict':
         # a policy audit that cannot be carried out (policy of the other role, policy file that does not load):
         # no verdict, hence neither of the two verdict statuses
-        import os
         js = case['json']
         net = fakenet.FakeNet()
         peer = fakenet.Server({'kex': ['curve25519-sha256'], 'key': ['ssh-ed25519'], 'enc': ['aes128-ctr'], 'mac': ['hmac-sha2-256']})
@@ -261,6 +289,36 @@ def strat_rated_asym():
     return st.tuples(st.one_of(gens.rated_peer(), gens.all_clean_peer()), st.one_of(gens.rated_peer(), gens.all_clean_peer(), gens.all_clean_peer()), st.sampled_from(['server', 'client', 'client']), st.sampled_from(OPTION_SETS), st.sampled_from(COLOR)).filter(lambda t: (t[0]['enc'], t[0]['mac']) != (t[1]['enc'], t[1]['mac'])).map(build)
 
 
+def strat_multi():
+    """2-3 peers (all names known to the table) scanned in one run; the Terrapin context differs between them now and then."""
+    def build(t):
+        peers, threads, strict = t
+        peers = [{c: list(v) for c, v in p.items()} for p in peers]
+        for i, p in enumerate(peers):
+            if strict >> i & 1:
+                p['kex'] = p['kex'] + ['kex-strict-s-v00@openssh.com']
+            if strict >> (i + 3) & 1 and 'chacha20-poly1305@openssh.com' not in p['enc']:
+                p['enc'] = p['enc'] + ['chacha20-poly1305@openssh.com']
+        return {'kind': 'multi', 'peers': peers, 'threads': threads}
+    return st.tuples(st.lists(st.one_of(gens.all_clean_peer(), gens.all_clean_peer(), gens.rated_peer()), min_size=2, max_size=3), st.sampled_from([1, 1, 2]), st.integers(0, 63)).map(build)
+
+
+def strat_long_rated():
+    """Lists of a few hundred names whose worst-rated member comes late (many GSS instantiations of one warn-only family, then a failing one)."""
+    def build(t):
+        n, tailname, role, opts, color, cat = t
+        lists = {'kex': ['curve25519-sha256'], 'key': ['ssh-ed25519'], 'enc': ['aes128-ctr'], 'mac': ['hmac-sha2-256']}
+        if cat == 'kex':
+            lists['kex'] = ['gss-curve25519-sha256-%024d==' % i for i in range(n)] + [tailname]
+        else:
+            rn = gens.rated_names(cat)
+            pool = sorted(x for x, c in rn.items() if c != 'fail')
+            lists[cat] = [pool[i % len(pool)] for i in range(n)] + [sorted(x for x, c in rn.items() if c == 'fail')[n % 3]]
+        return {'kind': 'rated', 'lists': lists, 'role': role, 'opts': color + opts}
+    return st.tuples(st.sampled_from([127, 128, 129, 130, 200, 257, 300]), st.sampled_from(['gss-group1-sha1-toWM5Slw5Ew8Mqkay+al2g==', 'diffie-hellman-group1-sha1', 'gss-gex-sha1-toWM5Slw5Ew8Mqkay+al2g==']), st.sampled_from(['server', 'client']),
+                     st.sampled_from(OPTION_SETS), st.sampled_from(COLOR), st.sampled_from(['kex', 'kex', 'enc', 'mac', 'key'])).map(build)
+
+
 def strat_unknown_mix():
     """warn-only through unknown names, single-category peers, gss names."""
     def build(t):
@@ -326,6 +384,10 @@ def broken_cases(quick):
         cases.append({'kind': 'broken', 'proto': 1, 'stage': 'ssh1-bad-crc', 'fault': ['none', 0, None], 'bad_crc': True, 'opts': opts})
         cases.append({'kind': 'broken', 'proto': 1, 'stage': 'ssh1-close-before-pkm', 'fault': ['pkm', 0, 'close'], 'opts': opts})
         cases.append({'kind': 'broken', 'proto': 1, 'stage': 'ssh1-pkm-truncated', 'fault': ['pkm', 0, ['trunc', 20, 'close']], 'opts': opts})
+        # a public-key message with a valid checksum around a body that is cut short, empty or padded with junk; asked for with -1 and reached through the fallback
+        for f in (['ssh1_trunc', 0], ['ssh1_trunc', 7], ['ssh1_trunc', 12], ['ssh1_trunc', 40], ['ssh1_trunc', 140], ['ssh1_body', ''], ['ssh1_body', '\x00' * 8], ['ssh1_set_u16', 12, 0xffff], ['ssh1_type', 3]):
+            cases.append({'kind': 'broken', 'proto': 1, 'stage': 'ssh1-pkm-body-malformed', 'fault': ['pkm', 0, f], 'opts': opts})
+            cases.append({'kind': 'broken', 'proto': 1, 'fallback': True, 'stage': 'ssh1-pkm-body-malformed-after-fallback', 'fault': ['pkm', 1, f], 'opts': opts})
     return cases
 
 
@@ -334,6 +396,8 @@ def run(ctx):
     ctx.hyp('strat_rated', n, label=1)
     ctx.hyp('strat_unknown_mix', 3000 if ctx.quick else 30000, label=2)
     ctx.hyp('strat_rated_asym', 3000 if ctx.quick else 30000, label=9)
+    ctx.hyp('strat_multi', 1500 if ctx.quick else 15000, label=10)
+    ctx.hyp('strat_long_rated', 300 if ctx.quick else 3000, label=11)
     ctx.hyp('strat_empty_names', 3000 if ctx.quick else 30000, label=3)
     bc = broken_cases(False)     # every truncation offset in both tiers (cheap)
     ctx.map(bc)
